@@ -629,6 +629,19 @@ impl Pred {
         }
     }
 
+    /// true if some literal of the tree is a NaN
+    pub fn has_nan_literal(&self) -> bool {
+        let nan = |l: &Lit| matches!(l, Lit::Float(f) if f.is_nan());
+        match self {
+            Pred::Cmp { lit, .. } => nan(lit),
+            Pred::Between { lo, hi, .. } => nan(lo) || nan(hi),
+            Pred::In { lits, .. } => lits.iter().any(nan),
+            Pred::Is(p, _) | Pred::Not(p) => p.has_nan_literal(),
+            Pred::And(a, b) | Pred::Or(a, b) => a.has_nan_literal() || b.has_nan_literal(),
+            _ => false,
+        }
+    }
+
     /// Leaves (kind, column) that occur with *negative* polarity in the tree; `<>` and NOT IN count
     /// as a negated equality / IN. Used for the narrow C19 known-finding signature.
     pub fn negated_leaves(&self, positive: bool, out: &mut Vec<(&'static str, usize)>) {
